@@ -2,6 +2,7 @@
 import Atto.Driver.Codec
 import Atto.Driver.SendOp
 import Atto.Driver.ProxyOp
+import Atto.Driver.MpOp
 namespace Atto.Driver
 open Atto
 
@@ -39,6 +40,7 @@ def runLine (line : String) : String :=
   | "resp" :: args => opResp args
   | "send" :: args => opSend args
   | "pfor" :: args => opPfor args
+  | "mpart" :: args => opMpart args
   | "penv" :: args => opPenv args
   | _ => "bad-op"
 
